@@ -38,15 +38,21 @@ Err(e, prop, why) ==
 Fresh == [n |-> 0, has |-> FALSE, last |-> 0, dead |-> FALSE, items |-> <<>>]
 Init == l = 1 /\ meta = [dense |-> FALSE, collapse |-> FALSE, shape |-> [k |-> "none"]] /\ slots = <<>> /\ skip = FALSE /\ errs = 0
 
-Shrunk(cb, ca) == Len(cb) = Len(ca) /\ \E i \in 1..Len(cb) : ca[i] < cb[i]
+RECURSIVE SumCaps(_)
+SumCaps(q) == IF q = <<>> THEN 0 ELSE Head(q) + SumCaps(Tail(q))
+\* pairwise where the callbacks line up, as a total otherwise (their number is not part of the contract)
+Shrunk(cb, ca) == \/ Len(cb) = Len(ca) /\ \E i \in 1..Len(cb) : ca[i] < cb[i]
+                  \/ SumCaps(ca) < SumCaps(cb)
 
 \* every check a push fails, as <<property, reason>> pairs (a wrong read must not hide a changed
 \* earlier item: they belong to different properties)
 PushVerdicts(e, sl) ==
   IF e.panic THEN <<<<"C01", "push-panicked">>>> \o (IF ~e.fresh_same THEN <<<<"C08", "panics-where-fresh-accepts">>>> ELSE <<>>)
+                                                 \o (IF e.item_form THEN <<<<"C20", "read-item-form-panics">>>> ELSE <<>>)
   ELSE
     (IF e.read_err # "" THEN <<<<"C01", "read-failed">>>>
      ELSE IF e.read_s # e.v_s THEN <<<<"C01", "read-differs">>>> ELSE <<>>)
+    \o (IF e.item_form /\ (e.read_err # "" \/ e.read_s # e.v_s) THEN <<<<"C20", "read-item-form-reads-differently">>>> ELSE <<>>)
     \o (IF ~e.stable THEN <<<<"C02", "earlier-read-changed">>>> ELSE <<>>)
     \o (IF e.n_before # sl.n THEN <<<<"C01", "live-count-differs">>>> ELSE <<>>)
     \o (IF meta.dense /\ e.idx_num # sl.n THEN <<<<"C12", "index-not-dense">>>> ELSE <<>>)
